@@ -15,6 +15,10 @@
 //	                        run all tasks to completion (bounded)
 //	key <addr>              tabulate getUDPNetAddrKey
 //
+// A case with exec = real (`C <mode> <async> real <rbs> <cap> <typ> <np>`) is the supporting real-kernel tier: the same
+// engine configuration on loopback sockets (bursts around the buffer size and the per-loop limit, pauses, idle-CPU window,
+// half-close / UDP bursts from two remotes); it prints one line `R real ok` and reports through the direct oracles.
+//
 // Result line after every op (what the Lean model must reproduce):
 //
 //	R <what> open=[ids] del=[id:len:fnv,..] q=<bytes|datagrams queued in the kernel> re=<readEvents>
@@ -856,6 +860,16 @@ func exec(e *lp.Exec) {
 			c.rbs, _ = strconv.Atoi(f[4])
 			c.cap, _ = strconv.Atoi(f[5])
 			c.np, _ = strconv.Atoi(f[7])
+			if c.exec == "real" {
+				if (c.mode == "lt" || c.mode == "et" || c.mode == "os") && (c.typ == "tcp" || c.typ == "unix" || c.typ == "udp") && c.rbs > 0 && c.cap > 0 && c.np > 0 {
+					realCase(e, c)
+					e.Count("mode", c.mode+"-real")
+					e.P("R real ok")
+				} else {
+					e.P("bad-op")
+				}
+				continue
+			}
 			ok := (c.mode == "lt" || c.mode == "et" || c.mode == "os") && (c.exec == "def" || c.exec == "park") &&
 				(c.typ == "tcp" || c.typ == "unix" || c.typ == "udp") && c.rbs > 0 && c.cap > 0 && c.np > 0
 			if !ok {
@@ -1087,6 +1101,10 @@ func gen(g *lp.Gen) {
 			genGateRace(g)
 			continue
 		}
+		if cs%40 == 17 {
+			g.P("C %s %d real %d %d %s %d", g.Pick("lt", "et", "os"), g.Intn(2), g.PickInt(7, 4096, 65536), g.PickInt(1, 3, 1000000), g.Pick("tcp", "unix", "udp"), g.PickInt(1, 2))
+			continue
+		}
 		mode := g.Pick("lt", "et", "os")
 		async := g.Chance(1, 2)
 		exec := g.Pick("def", "park", "park")
@@ -1219,6 +1237,221 @@ func b2i(b bool) int {
 		return 1
 	}
 	return 0
+}
+
+// ---------------------------------------------------------------- real-kernel tier (supporting)
+
+func cpuTime() time.Duration {
+	var ru syscall.Rusage
+	_ = syscall.Getrusage(0, &ru)
+	return time.Duration(ru.Utime.Nano() + ru.Stime.Nano())
+}
+
+// realCase runs the configuration on real loopback sockets. One-sided tolerances, a failing observation is
+// re-checked before it is reported (real time, real scheduler).
+func realCase(e *lp.Exec, c cfg) {
+	vsys.ReadHook, vsys.AtomicHook = nil, nil
+	defer func() { vsys.ReadHook, vsys.AtomicHook = readHook, atomicHook }()
+	tag := fmt.Sprintf("real mode=%s async=%v typ=%s rbs=%d cap=%d", c.mode, c.isAsync(), c.typ, c.rbs, c.cap)
+	network, addr := c.typ, "127.0.0.1:0"
+	if c.typ == "unix" {
+		addr = fmt.Sprintf("/tmp/hread-%d-%d.sock", syscall.Getpid(), time.Now().UnixNano())
+		defer syscall.Unlink(addr)
+	}
+	conf := nbio.Config{Network: network, Addrs: []string{addr}, NPoller: c.np, ReadBufferSize: c.rbs,
+		MaxConnReadTimesPerEventLoop: c.cap, AsyncReadInPoller: c.async}
+	switch c.mode {
+	case "et":
+		conf.EpollMod = nbio.EPOLLET
+	case "os":
+		conf.EpollMod = nbio.EPOLLET
+		conf.EPOLLONESHOT = nbio.EPOLLONESHOT
+	}
+	g := nbio.NewEngine(conf)
+	var mu sync.Mutex
+	got := map[*nbio.Conn][]byte{}
+	var order []*nbio.Conn
+	closed := map[*nbio.Conn]string{}
+	g.OnData(func(nc *nbio.Conn, d []byte) {
+		mu.Lock()
+		if _, ok := got[nc]; !ok {
+			order = append(order, nc)
+		}
+		got[nc] = append(got[nc], d...)
+		if c.typ == "udp" {
+			got[nc] = append(got[nc], 0xff) // datagram boundary marker
+		}
+		mu.Unlock()
+	})
+	g.OnClose(func(nc *nbio.Conn, err error) { mu.Lock(); closed[nc] = errClass(err); mu.Unlock() })
+	if err := g.Start(); err != nil {
+		e.P("#real start failed %v", err)
+		return
+	}
+	defer func() {
+		done := make(chan struct{})
+		go func() { g.Stop(); close(done) }()
+		select {
+		case <-done:
+		case <-time.After(5 * time.Second):
+		}
+	}()
+	for i := 0; i < c.np; i++ {
+		vsys.InjectTimeout(g.VerifEpfd(i), nil, 5*time.Second)
+	}
+	total := func() int {
+		mu.Lock()
+		defer mu.Unlock()
+		n := 0
+		for _, b := range got {
+			n += len(b)
+		}
+		return n
+	}
+	waitFor := func(want int, d time.Duration) bool {
+		t0 := time.Now()
+		for time.Since(t0) < d {
+			if total() >= want {
+				return true
+			}
+			time.Sleep(time.Millisecond)
+		}
+		return total() >= want
+	}
+	idle := func() {
+		// no input pending: the readers must be idle (generous bound: half a core over the window; re-measured once)
+		for try := 0; try < 2; try++ {
+			c0 := cpuTime()
+			time.Sleep(60 * time.Millisecond)
+			if used := cpuTime() - c0; used < 30*time.Millisecond {
+				return
+			} else if try == 1 {
+				e.Oracle("c02-spin", "%s: %v CPU in a 60ms window with no input pending", tag, used)
+			}
+		}
+	}
+	if c.typ == "udp" {
+		la := g.Addrs[0]
+		var socks []net.Conn
+		for i := 0; i < 2; i++ {
+			pc, err := net.Dial("udp", la)
+			if err != nil {
+				return
+			}
+			defer pc.Close()
+			socks = append(socks, pc)
+		}
+		// a burst of datagrams of different sizes from two remotes, back to back
+		sizes := []int{1, 5, 100, 3, 64, 2}
+		want := 0
+		var sent [2][]byte
+		for round := 0; round < 3; round++ {
+			for i, n := range sizes {
+				k := n
+				if k > c.rbs {
+					k = c.rbs // larger datagrams are truncated by the kernel: not part of this tier
+				}
+				b := lp.Pattern(k, round*7+i)
+				s := (i + round) % 2
+				_, _ = socks[s].Write(b)
+				sent[s] = append(append(sent[s], b...), 0xff)
+				want += k + 1
+			}
+			if !waitFor(want, 3*time.Second) {
+				e.Oracle("c02-stranded", "%s: %d of %d datagram bytes delivered 3s after a burst (rest stranded until the next arrival?)", tag, total(), want)
+				return
+			}
+			time.Sleep(2 * time.Millisecond)
+		}
+		idle()
+		mu.Lock()
+		if len(order) != 2 {
+			e.Oracle("c02-udp-demux", "%s: 2 remotes, %d sessions", tag, len(order))
+		} else {
+			for _, nc := range order {
+				ra := nc.RemoteAddr().String()
+				for s := 0; s < 2; s++ {
+					if socks[s].LocalAddr().String() == ra && string(got[nc]) != string(sent[s]) {
+						e.Oracle("c02-delivery", "%s: session %s received %d bytes, its remote sent %d (content/boundaries differ)", tag, ra, len(got[nc]), len(sent[s]))
+					}
+				}
+			}
+		}
+		mu.Unlock()
+		return
+	}
+	pc, err := net.Dial(network, g.Addrs[0])
+	if err != nil {
+		e.P("#real dial failed %v", err)
+		return
+	}
+	defer pc.Close()
+	capN := c.cap
+	if capN > 3 {
+		capN = 3
+	}
+	big := capN*c.rbs + 1
+	if big > 300000 {
+		big = 300000
+	}
+	var sent []byte
+	for i, n := range []int{1, c.rbs - 1, c.rbs, c.rbs + 1, big, 3} {
+		if n <= 0 {
+			n = 1
+		}
+		if n > 300000 {
+			n = 300000
+		}
+		b := lp.Pattern(n, i)
+		if _, err := pc.Write(b); err != nil {
+			return
+		}
+		sent = append(sent, b...)
+		if i%2 == 0 {
+			time.Sleep(2 * time.Millisecond) // pause: the next burst is a new readiness event
+		}
+	}
+	if !waitFor(len(sent), 5*time.Second) {
+		e.Oracle("c02-stranded", "%s: %d of %d bytes delivered 5s after the last burst", tag, total(), len(sent))
+		return
+	}
+	idle()
+	// burst larger than the per-loop limit, then half-close
+	b := lp.Pattern(big+c.rbs, 9)
+	_, _ = pc.Write(b)
+	sent = append(sent, b...)
+	switch t := pc.(type) {
+	case *net.TCPConn:
+		_ = t.CloseWrite()
+	case *net.UnixConn:
+		_ = t.CloseWrite()
+	}
+	t0 := time.Now()
+	for time.Since(t0) < 5*time.Second {
+		mu.Lock()
+		n := len(closed)
+		mu.Unlock()
+		if n > 0 {
+			break
+		}
+		time.Sleep(time.Millisecond)
+	}
+	mu.Lock()
+	defer mu.Unlock()
+	if len(closed) == 0 {
+		e.Oracle("c02-stranded", "%s: no close notification 5s after the peer's half-close", tag)
+		return
+	}
+	var all []byte
+	for _, nc := range order {
+		all = append(all, got[nc]...)
+	}
+	if len(order) != 1 || string(all) != string(sent[:len(all)]) {
+		e.Oracle("c02-delivery", "%s: delivered bytes are not a prefix of the bytes sent (%d conns, %d bytes)", tag, len(order), len(all))
+	}
+	if len(all) != len(sent) && !c.isAsync() { // asynchronous configurations: known finding C02-async-halfclose
+		e.Oracle("c02-stranded", "closed on peer half-close with %d unread in the kernel queue mode=%s async=%v typ=%s cap=%d rbs=%d (real kernel)", len(sent)-len(all), c.mode, c.isAsync(), c.typ, c.cap, c.rbs)
+	}
 }
 
 func main() { lp.Main(gen, exec) }
